@@ -14,7 +14,7 @@ func init() {
 		Title: "Every request gets exactly one outcome; 404/405/415/406 are exact",
 		Decided: "C02.a every path through the dispatching function produces exactly one outcome (error chain, install-failure 500, route chain or direct route function); C02.b in the stage function the emptiness tests follow the order conditions, method, Content-Type, Accept and the error built under each carries 404 / 405 / 415 / {415,406}; every error a module selector returns is a ServiceError with a constant code (404 where the selector itself refuses); " +
 			"C02.c no header of a writer is changed after a call that may commit the response on the same writer; C02.d panic/os.Exit reachable from request roots exist only where a precondition of the embedding program or a constant-argument standard-library constructor is concerned, and no request data reaches regexp.MustCompile; C02.e a slice of request-derived text whose bound is computed by subtraction is guarded by the comparison that makes it well-formed; " +
-			"C02.f the root-path scorer consults {v:regex}; C02.g header tokens are trimmed after the last cut (router side); C02.h the 405 Allow list (see C17.c); C02.i every other entry point hands the request on exactly once; C02.j a selector refuses exactly when the previous step found nothing; C02.k/C02.m every index expression on the request path is either proven in range by the Go compiler's prove pass or related to the length of the collection it indexes by a dominating test (or the sort.Interface contract), and bounds taken from a search of request text were compared with -1; C02.l template literals and the request path reach the compiled matchers through the same character-rewriting functions. C02.n = C01.f. C02.o = C11.l (the routers consult the current route table: derived copies follow every change). C02.p = C01.h; C02.q whatever may answer in place of the service error handler is chosen under a comparison of the ServiceError's Code with a constant.",
+			"C02.f the root-path scorer consults {v:regex}; C02.g header tokens are trimmed after the last cut (router side); C02.h the 405 Allow list (see C17.c); C02.i every other entry point hands the request on exactly once; C02.j a selector refuses exactly when the previous step found nothing; C02.k/C02.m every index expression on the request path is either proven in range by the Go compiler's prove pass or related to the length of the collection it indexes by a dominating test (or the sort.Interface contract), and bounds taken from a search of request text were compared with -1; C02.l template literals and the request path reach the compiled matchers through the same character-rewriting functions. C02.n = C01.f. C02.o = C11.l (the routers consult the current route table: derived copies follow every change). C02.p = C01.h; C02.q whatever may answer in place of the service error handler is chosen under a comparison of the ServiceError's Code with a constant. C02.s in every loop of a request-path function no cycle avoids all tests that can leave the loop.",
 		NotDecided: "panics other than index out of range (nil dereference, nil map write, type assertion) beyond C02.j; the arithmetic of slice expressions on template text (a malformed template, not a request, would be needed); nil results of custom routers; 'a matching route exists therefore no 4xx'; the best-root arithmetic.",
 		Rules: []Rule{
 			{ID: "C02.a", Template: "T-ONCE", Required: true, Run: ruleC02a,
@@ -45,6 +45,8 @@ func init() {
 				Doc: "If a route matches, no 4xx: legal optional whitespace in Accept/Content-Type must not turn a match into 406/415."},
 			{ID: "C02.h", Template: "T-PROV", Required: true, Run: ruleAllow405,
 				Doc: "405 carries an Allow header naming exactly the methods of the path-matching routes."},
+			{ID: "C02.s", Template: "T-SINK", Required: false, Run: ruleLoopsCanExit,
+				Doc: "Every loop on the request path can be left from every one of its cycles: no way round a loop avoids all of the tests that can leave it. A `continue` in front of the only exit test of a `for { }` over the elements of a header value makes `Accept: text/plain,,` spin for ever - no outcome at all."},
 			{ID: "C02.r", Template: "T-GUARD", Required: true, Run: ruleTraceLoggerGuarded,
 				Doc: "'Dispatching any request never panics': every call through traceLogger is controlled by the trace flag (same obligations as C19.j); after TraceLogger(nil) an unguarded call is a call on a nil interface."},
 			{ID: "C02.q", Template: "T-GUARD", Required: true, Run: ruleAlternativeAnswers,
